@@ -8,7 +8,7 @@
   "flags": [],
   "driver": "inline"
  },
- "detail": "C19: run_inline reported categories ['create', 'fix'] but the report session lists ['create', 'fix', 'trim', 'update']\n==================================== ERRORS ====================================\n_______________________ ERROR at teardown of test_create _______________________\nyour snapshot is missing one value.\n________________________ ERROR at teardown of test_fix _________________________\nsome snapshots in this test have incorrect values.\n=================================== FAILURES ===================================\n___________________________________ test_fix ___________________________________\n\n    def test_fix():\n>       assert 29 == snapshot(30)\nE       assert 29 == 30\nE        +  where 30 = snapshot(30)\n\ntest_something.py:9: AssertionError\n==================================== PASSES ====================================\n------------ generated xml file: /tmp/bsess-out-j5e_d_pn/junit.xml -------------\n=========================== short test summary info ============================\nPASSED test_something.py::test_create\nPASSED test_something.py::test_trim\nPASSED test_something.py::test_update\nPASSED test_something.py::test_ok\nERROR test_something.py::test_create - Failed: your snapshot is missing one v...\nERROR test_something.py::test_fix - Failed: some snapshots in this test have ...\nFAILED test_something.py::test_fix - assert 29 == 30\n==================== 1 failed, 4 passed, 2 errors in 2.74s ====================="
+ "detail": "C19: run_inline reported categories ['create', 'fix'] but the report session lists ['create', 'fix', 'trim', 'update']\n==================================== ERRORS ====================================\n_______________________ ERROR at teardown of test_create _______________________\nyour snapshot is missing one value.\n________________________ ERROR at teardown of test_fix _________________________\nsome snapshots in this test have incorrect values.\n=================================== FAILURES ===================================\n___________________________________ test_fix ___________________________________\n\n    def test_fix():\n>       assert 29 == snapshot(30)\nE       assert 29 == 30\nE        +  where 30 = snapshot(30)\n\ntest_something.py:9: AssertionError\n==================================== PASSES ====================================\n------------ generated xml file: /tmp/bsess-out-nmx7339y/junit.xml -------------\n=========================== short test summary info ============================\nPASSED test_something.py::test_create\nPASSED test_something.py::test_trim\nPASSED test_something.py::test_update\nPASSED test_something.py::test_ok\nERROR test_something.py::test_create - Failed: your snapshot is missing one v...\nERROR test_something.py::test_fix - Failed: some snapshots in this test have ...\nFAILED test_something.py::test_fix - assert 29 == 30\n==================== 1 failed, 4 passed, 2 errors in 3.32s ====================="
 }
 """
 
